@@ -292,6 +292,64 @@ func runC12(tier string) int {
 				Replay: map[string]interface{}{"position": pos.name, "source": src, "switches": o.Switches, "selected_source": selSrc, "output": res.Out, "selected_output": ref.Out}})
 		}
 	})
+	// lists: K items (steps) before the poryswitch for every K up to a bound, three single-element colon cases and three
+	// brace cases of different lengths, each case selected in turn (what one case appends must not reach another)
+	maxBefore := 24
+	if tier == "thorough" {
+		maxBefore = 70
+	}
+	listDone := r.Parallel(uint64(maxBefore+1)*3*2*4, func(w int, idx uint64) {
+		sel := int(idx % 4)
+		x := idx / 4
+		brace := x%2 == 1
+		x /= 2
+		kind := int(x % 3) // 0 mart, 1 movement, 2 moves()
+		k := int(x / 3)
+		var before []string
+		for i := 0; i < k; i++ {
+			before = append(before, fmt.Sprintf("B%d", i))
+		}
+		contents := [][]string{{"X1"}, {"Y1"}, {"Z1"}}
+		if brace {
+			contents = [][]string{{"X1", "X2"}, {"Y1", "Y2", "Y3"}, {"Z1"}}
+		}
+		labels := []string{"A", "B", "_"}
+		var cases []string
+		for i, c := range contents {
+			if brace {
+				cases = append(cases, labels[i]+" { "+strings.Join(c, " ")+" }")
+			} else {
+				cases = append(cases, labels[i]+": "+c[0])
+			}
+		}
+		v := []string{"A", "B", "Q", ""}[sel]
+		chosen := contents[map[string]int{"A": 0, "B": 1}[v]]
+		if v != "A" && v != "B" {
+			chosen = contents[2]
+		}
+		wrap := func(list []string) string {
+			switch kind {
+			case 0:
+				return "mart M {\n" + strings.Join(list, "\n") + "\n}\n"
+			case 1:
+				return "movement M {\n" + strings.Join(list, "\n") + "\n}\n"
+			}
+			return "script S {\n\tam(1, moves(" + strings.Join(list, " ") + "))\n}\n"
+		}
+		src := wrap(append(append(append([]string{}, before...), "poryswitch(V) { "+strings.Join(cases, " ")+" }"), "AFTER"))
+		selSrc := wrap(append(append(append([]string{}, before...), chosen...), "AFTER"))
+		o := comp.Opts{Optimize: true, Switches: map[string]string{"V": v}}
+		res, ref := comp.Compile(src, o), comp.Compile(selSrc, o)
+		r.Add("evaluations", 1)
+		r.Add("nontrivial", 1)
+		r.Add("list_prefix_programs", 1)
+		if res.Err != nil || ref.Err != nil || res.Panic+ref.Panic != "" || res.Out != ref.Out {
+			r.Report(harness.Violation{Sig: fmt.Sprintf("C12:list-prefix:kind%d", kind), Summary: fmt.Sprintf("%d elements before the poryswitch (kind %d, brace=%v), -s V=%q: error %v / %v; %s\n  source: %q", k, kind, brace, v, res.Err, ref.Err, firstDiff(res.Out, ref.Out), clip(src, 400)), Replay: map[string]interface{}{"source": src, "switches": o.Switches, "selected_source": selSrc, "output": res.Out, "selected_output": ref.Out}})
+		}
+	})
+	if !listDone {
+		r.NotExhaustive("list prefix programs not completed")
+	}
 	// dictionary sweep: every identifier-like literal of the compiler's own source as a case label, as the -s value and
 	// as the switch key, in every position, colon and brace form
 	words := dictIdents()
@@ -362,7 +420,7 @@ func runC12(tier string) int {
 		"where the written-out program is ill-formed (a continue that is not last), the poryswitch program must be rejected as well",
 		"line markers off; all switch keys defined; the file also defines constants named like case labels and switch values")
 	return r.Finish(r.Get("evaluations"), r.Get("nontrivial"),
-		"every poryswitch with 1-3 distinct case labels from {A, B, 1, _} in every order x colon/brace form per case x every content assignment (11-13 statement contents incl. one literal formatted under different parameters in different cases, inline texts, typed texts, labels, control flow, nested poryswitches; 8 text contents incl. typed, formatted (also one literal under three parameter sets) and multi-part; 7 movement and 6 mart contents incl. nested poryswitches, multipliers, terminators) in 9 positions (statement, in if, in loop, in a switch case of a loop before further cases, in inline map script, text, movement, moves(), mart) x -s value in {A, B, 1, non-matching, empty}; plus poryswitches with K cases for every K up to the bound in the coverage in every position with the first / middle / last case or '_' selected; also every identifier-like literal of the compiler's own source as case label, -s value and switch key in every position; also every program of the control-flow families (C01 / C03 / C04 bounds) with its whole body, every block, or one top-level statement moved into the selected case (brace and colon form, selected directly and through '_'); output compared byte for byte with the program in which the selected case is written out; non-trivial = >= 2 cases")
+		"every poryswitch with 1-3 distinct case labels from {A, B, 1, _} in every order x colon/brace form per case x every content assignment (11-13 statement contents incl. one literal formatted under different parameters in different cases, inline texts, typed texts, labels, control flow, nested poryswitches; 8 text contents incl. typed, formatted (also one literal under three parameter sets) and multi-part; 7 movement and 6 mart contents incl. nested poryswitches, multipliers, terminators) in 9 positions (statement, in if, in loop, in a switch case of a loop before further cases, in inline map script, text, movement, moves(), mart) x -s value in {A, B, 1, non-matching, empty}; plus poryswitches with K cases for every K up to the bound in the coverage in every position with the first / middle / last case or '_' selected; also marts, movements and moves() with K elements before the poryswitch for every K up to a bound, each case selected; also every identifier-like literal of the compiler's own source as case label, -s value and switch key in every position; also every program of the control-flow families (C01 / C03 / C04 bounds) with its whole body, every block, or one top-level statement moved into the selected case (brace and colon form, selected directly and through '_'); output compared byte for byte with the program in which the selected case is written out; non-trivial = >= 2 cases")
 }
 
 // c12Wrappings rewrites a printed single-script program (one statement per line, tab indentation) so that
